@@ -118,6 +118,116 @@ theorem epsmatch_inside_trapezoid {lk : Lookup} (hlk : FourLetter lk) (t q : Lis
     apply decide_eq_true
     omega
 
+/-- `NewMerger(index, working, params, maxIGap, selfCompare && !complement)` as `PALS.Align(complement)`
+    builds it since the repair `d09a2b0` (upstream `fd44978`): on the complement strand the merger's
+    main-diagonal cut is off — the filter has already restricted that strand to one side of the
+    anti-diagonal. -/
+def mergerCfgStrand (lk : Lookup) (t q : List UInt8) (k e off g : Nat) (selfAlign complement : Bool) : Cfg :=
+  mergerCfg lk t q k e off g (selfAlign && !complement)
+
+/-- **`epsmatch_inside_trapezoid_strand`** — the chain for either strand of `PALS.Align(complement)`:
+    the filter runs with the flags `(selfAlign, complement)`, the merger with
+    `selfComparison = selfAlign && !complement` (`pals.go`).  Every ε-match required on the strand
+    (`requiredC`: forward strand of a self comparison `a < b`, complement strand `Tlen ≤ a + b`,
+    everything otherwise) lies in a returned trapezoid that passes the pre-screen of `AlignTraps`;
+    only on the forward strand of a self comparison the match must in addition stay
+    `MaxError + maxIGap + tubeWidth` diagonals above the main diagonal (the merger's cut). -/
+theorem epsmatch_inside_trapezoid_strand {lk : Lookup} (hlk : FourLetter lk) (t q : List UInt8)
+    (k n e off g : Nat) (selfAlign complement : Bool)
+    (hk : Biogo.Kmer.minKmerLen ≤ k) (hk' : k ≤ Biogo.Kmer.maxKmerLen) (ht : k + 1 ≤ t.length)
+    (hq : Biogo.Proofs.FilterComplete.AllValid lk q) (htv : Biogo.Proofs.FilterComplete.AllValid lk t)
+    (hthr : 0 < minWordsPerFilterHit n k e) (he : e ≤ off) (hoff : 1 ≤ off) (hg : 1 ≤ g)
+    (hits : List Biogo.Filter.Hit)
+    (hf : filter Biogo.Generated.FilterFacts.rule lk (builtIndex lk k t)
+            { minMatch := n, maxError := e, tubeOffset := off } q selfAlign complement = .ok hits)
+    (sorted : List FHit) (hsame : ∀ x, x ∈ sorted ↔ x ∈ hits.map toF) (hsorted : SortedByFrom sorted)
+    (traps : List Trap) (hm : merge (mergerCfgStrand lk t q k e off g selfAlign complement) sorted = some traps) :
+    ∀ a b, EpsMatch lk t q n e a b → requiredC selfAlign complement t.length a b = true →
+      (selfAlign = true → complement = false → (b : Int) - a > (e : Int) + g + ((off : Int) + e - 1)) →
+      ∃ T ∈ traps, T.left ≤ (b : Int) - a ∧ (b : Int) - a ≤ T.right ∧
+        T.bottom < (b : Int) + n ∧ (b : Int) < T.top ∧ preScreen k T = true := by
+  intro a b hmatch hreq hfar
+  have hk1 : 2 ≤ k ∧ 2 * k ≤ Biogo.Kmer.wordBits := by
+    unfold Biogo.Kmer.minKmerLen at hk; unfold Biogo.Kmer.maxKmerLen at hk'; unfold Biogo.Kmer.wordBits; omega
+  -- link 1: the filter
+  have hcomp := Biogo.Properties.C14.filter_complete_strand hlk t q k n e off selfAlign complement hk hk' ht hq hthr he hoff
+  obtain ⟨h, hh, hcov⟩ := hcomp hits hf a b hmatch hreq
+  obtain ⟨h0, hh0, rfl⟩ := List.mem_map.mp hh
+  simp only [covers, toSpec, Bool.and_eq_true] at hcov
+  obtain ⟨⟨⟨c1, c2⟩, c3⟩, c4⟩ := hcov
+  have c1 := of_decide_eq_true c1
+  have c2 := of_decide_eq_true c2
+  have c3 := of_decide_eq_true c3
+  have c4 := of_decide_eq_true c4
+  -- every filter hit has From ≤ To
+  have hqlen : k ≤ q.length := by
+    obtain ⟨_, hb, _⟩ := hmatch
+    have := thr_pos_imp hthr (by omega : 1 ≤ k)
+    omega
+  have hwf := Biogo.Proofs.PalsChain.filter_hits_wf hlk _ (builtIndex lk k t)
+    { minMatch := n, maxError := e, tubeOffset := off } q selfAlign complement
+    (by rw [builtIndex_k]; omega) (by rw [builtIndex_k]; exact hk1.2) hq (by rw [builtIndex_k]; exact hqlen)
+    he hoff hits hf
+  -- link 2: the merger
+  have pre : Pre (mergerCfgStrand lk t q k e off g selfAlign complement) sorted :=
+    { band := by simp only [Cfg.binWidth, Cfg.tubeWidth, mergerCfgStrand, mergerCfg]; omega
+      gap := by simp only [mergerCfgStrand, mergerCfg]; omega
+      qvalid := validity_allValid lk q hq
+      tvalid := validity_allValid lk t htv
+      sorted := hsorted
+      ordered := by
+        intro x hx
+        obtain ⟨y, hy, rfl⟩ := List.mem_map.mp ((hsame x).mp hx)
+        have := hwf y hy
+        simp only [toF]
+        omega }
+  have hin : toF h0 ∈ sorted := (hsame _).mpr (List.mem_map.mpr ⟨h0, hh0, rfl⟩)
+  have hnotcut : selfCut (mergerCfgStrand lk t q k e off g selfAlign complement) (toF h0) = false := by
+    unfold selfCut
+    cases hs : selfAlign with
+    | false => simp [mergerCfgStrand, mergerCfg]
+    | true =>
+      cases hc : complement with
+      | true => simp [mergerCfgStrand, mergerCfg]
+      | false =>
+        have := hfar hs hc
+        simp only [mergerCfgStrand, mergerCfg, toF, Bool.true_and, Bool.not_false]
+        apply decide_eq_false
+        omega
+  obtain ⟨T, hT, l1, l2, l3, l4⟩ := merger_covers_hits _ sorted traps pre hm (toF h0) hin hnotcut
+  have hk0 := hwf h0 hh0
+  rw [builtIndex_k] at hk0
+  refine ⟨T, hT, ?_, ?_, ?_, ?_, ?_⟩
+  · simp only [toF] at l1; omega
+  · simp only [toF, Cfg.binWidth, Cfg.tubeWidth, mergerCfgStrand, mergerCfg] at l2; omega
+  · simp only [toF] at l3; omega
+  · simp only [toF] at l4; omega
+  · simp only [toF] at l3 l4
+    unfold preScreen
+    apply decide_eq_true
+    omega
+
+/-- **the complement strand of a self comparison** (`PALS.Align(true)` with `selfCompare`): every
+    ε-match of the target against the reverse-complemented query that lies on or above the
+    anti-diagonal (`Tlen ≤ a + b`) is inside a trapezoid handed to the DP — with no margin: the merger
+    does not cut on this strand. -/
+theorem epsmatch_inside_trapezoid_complement {lk : Lookup} (hlk : FourLetter lk) (t q : List UInt8)
+    (k n e off g : Nat)
+    (hk : Biogo.Kmer.minKmerLen ≤ k) (hk' : k ≤ Biogo.Kmer.maxKmerLen) (ht : k + 1 ≤ t.length)
+    (hq : Biogo.Proofs.FilterComplete.AllValid lk q) (htv : Biogo.Proofs.FilterComplete.AllValid lk t)
+    (hthr : 0 < minWordsPerFilterHit n k e) (he : e ≤ off) (hoff : 1 ≤ off) (hg : 1 ≤ g)
+    (hits : List Biogo.Filter.Hit)
+    (hf : filter Biogo.Generated.FilterFacts.rule lk (builtIndex lk k t)
+            { minMatch := n, maxError := e, tubeOffset := off } q true true = .ok hits)
+    (sorted : List FHit) (hsame : ∀ x, x ∈ sorted ↔ x ∈ hits.map toF) (hsorted : SortedByFrom sorted)
+    (traps : List Trap) (hm : merge (mergerCfg lk t q k e off g false) sorted = some traps) :
+    ∀ a b, EpsMatch lk t q n e a b → t.length ≤ a + b →
+      ∃ T ∈ traps, T.left ≤ (b : Int) - a ∧ (b : Int) - a ≤ T.right ∧
+        T.bottom < (b : Int) + n ∧ (b : Int) < T.top ∧ preScreen k T = true := by
+  intro a b hmatch hab
+  exact epsmatch_inside_trapezoid_strand hlk t q k n e off g true true hk hk' ht hq htv hthr he hoff hg hits hf
+    sorted hsame hsorted traps hm a b hmatch (by simp [requiredC, hab]) (by intro _ h; cases h)
+
 theorem except_ok_of_check {ε α : Type} [DecidableEq α] (x : Except ε α) (v : α)
     (h : (match x with | .ok a => decide (a = v) | .error _ => false) = true) : x = .ok v := by
   cases x with
@@ -150,5 +260,37 @@ example :
     (by decide) (by decide) (by decide) (by decide)
     [⟨1, 5, -1⟩] (except_ok_of_check _ _ (by decide +kernel)) [⟨1, 5, -1⟩] (by simp [toF]) (by simp [SortedByFrom])
     [⟨5, 1, 1, 2⟩] (by decide +kernel) 0 1 (by decide +kernel) (by decide) (by intro h; cases h)
+
+/-! ### non-vacuity on the complement strand: `caacgttg` (its own reverse complement, `L = 8`),
+`k = n = 4`, `e = 0`, `off = 2`, `maxIGap = 5`: the match `(4, 4)` on the anti-diagonal is handed to
+the DP in the trapezoid `{Top 8, Bottom 4, Left 0, Right 1}`.  The covering hit has diagonal 0: with
+the merger's main-diagonal cut on (as before `d09a2b0`) it would have been dropped
+(`Left - maxIGap = -5 ≤ MaxError`). -/
+
+open Biogo.Properties.C14 (dna) in
+example :
+    (∃ T ∈ [(⟨8, 4, 0, 1⟩ : Trap)], T.left ≤ ((4 : Nat) : Int) - (4 : Nat) ∧ ((4 : Nat) : Int) - (4 : Nat) ≤ T.right ∧
+      T.bottom < ((4 : Nat) : Int) + (4 : Nat) ∧ ((4 : Nat) : Int) < T.top ∧ preScreen (4 : Nat) T = true) ∧
+    merge (mergerCfg dna [99, 97, 97, 99, 103, 116, 116, 103] [99, 97, 97, 99, 103, 116, 116, 103] 4 0 2 5 true)
+      [⟨4, 8, 0⟩] = some [] := by
+  have hlk : FourLetter dna := by
+    intro b d h
+    unfold dna at h
+    split at h
+    · cases h; omega
+    · split at h
+      · cases h; omega
+      · split at h
+        · cases h; omega
+        · split at h
+          · cases h; omega
+          · cases h
+  refine ⟨?_, by decide +kernel⟩
+  exact epsmatch_inside_trapezoid_complement hlk [99, 97, 97, 99, 103, 116, 116, 103] [99, 97, 97, 99, 103, 116, 116, 103] 4 4 0 2 5
+    (by decide) (by decide) (by decide)
+    (by unfold Biogo.Proofs.FilterComplete.AllValid; decide) (by unfold Biogo.Proofs.FilterComplete.AllValid; decide)
+    (by decide) (by decide) (by decide) (by decide)
+    [⟨4, 8, 0⟩] (except_ok_of_check _ _ (by decide +kernel)) [⟨4, 8, 0⟩] (by simp [toF]) (by simp [SortedByFrom])
+    [⟨8, 4, 0, 1⟩] (by decide +kernel) 4 4 (by decide +kernel) (by decide)
 
 end Biogo.Properties.C15_chain
